@@ -440,3 +440,177 @@ Proof.
     eexists. exists css'. split; [exact E|]. split; [exact Hf'|]. split; [exact B|]. split; [|split; [exact I|exact A]].
     intros d. rewrite (proj1 B). apply (fwd_bse_override_unchanged cs p ch css' Hne Hnn Hf').
 Qed.
+
+(** * the origin chain: a refund (error acknowledgement or timeout) puts everything back; success debits the sender *)
+Theorem origin_refund_restores cs dst_ch sender ch d x recv memo cs1 s :
+  (forall a d, 0 <= bal cs a d) -> infl cs ch (nseq cs ch) = None ->
+  do_transfer cs dst_ch sender ch d x recv memo = Some (cs1, s) ->
+  let pkt := mkP ch dst_ch s d x sender recv memo in
+  let csd := set_com cs1 (upd_nn (com cs1) ch s None) in
+  s = nseq cs ch /\ com cs1 ch s = Some pkt /\
+  (exists cs2, pfm_on_ack csd pkt false = Some cs2 /\ ledger_eq cs2 cs) /\
+  (exists cs2, pfm_on_timeout (fun _ => dst_ch) csd pkt = Some cs2 /\ ledger_eq cs2 cs) /\
+  pfm_on_ack csd pkt true = Some csd /\
+  (sender <> AEscrow ch -> bal csd sender d = bal cs sender d - x).
+Proof.
+  intros Hnn Hinfl. unfold do_transfer. destruct (existsb (N.eqb ch) (chans cs)); cbn [negb]; [|discriminate].
+  unfold ics_send. destruct (Z.leb_spec x 0) as [|Hpos]; [discriminate|].
+  destruct (has_prefix d ch) eqn:Hp.
+  - destruct (Z.ltb_spec (bal cs sender d) x) as [|Hge]; [discriminate|].
+    intros H; inversion H; subst; clear H. cbn zeta. fields. unfold upd_nn. rewrite !N.eqb_refl. cbn [andb].
+    split; [reflexivity|]. split; [reflexivity|].
+    unfold pfm_on_ack, pfm_on_timeout, ics_refund. cbn [k_src_ch k_seq k_denom k_amt k_sender]. fields. unfold upd_nn.
+    rewrite ?N.eqb_refl; cbn [andb]; rewrite ?Hinfl, ?Hp; cbn [andb].
+    split; [|split; [|split]].
+    + eexists. split; [reflexivity|]. ledger.
+    + eexists. split; [reflexivity|]. ledger.
+    + reflexivity.
+    + intros _. simp_keys. lia.
+  - unfold send_coins. destruct (Z.ltb_spec (bal cs sender d) x) as [|Hge]; [discriminate|].
+    intros H; inversion H; subst; clear H. cbn zeta. fields. unfold upd_nn. rewrite !N.eqb_refl. cbn [andb].
+    split; [reflexivity|]. split; [reflexivity|].
+    unfold pfm_on_ack, pfm_on_timeout, ics_refund, send_coins. cbn [k_src_ch k_seq k_denom k_amt k_sender]. fields. unfold upd_nn.
+    rewrite ?N.eqb_refl; cbn [andb]; rewrite ?Hinfl, ?Hp; cbn [andb]. fields. rewrite ?acct_eqb_refl, ?denom_eqb_refl. cbn [andb].
+    repeat match goal with |- context [?a <? x] =>
+      let Hb := fresh "Hb" in
+      assert (Hb : a <? x = false) by (apply Z.ltb_ge; pose proof (Hnn (AEscrow ch) d); keys; lia); rewrite Hb; clear Hb end.
+    split; [|split; [|split]].
+    + eexists. split; [reflexivity|]. ledger.
+    + eexists. split; [reflexivity|]. ledger.
+    + reflexivity.
+    + intros Hs. fields. rewrite ?acct_eqb_refl, ?denom_eqb_refl. cbn [andb]. keys; try lia; congruence.
+Qed.
+
+(** * the final chain: a successful plain receive credits the receiver with the full amount *)
+Theorem final_receive_credits dst_of cs p a cs1 :
+  k_memo p = MNone -> k_recv p = Some a -> pfm_on_recv dst_of cs p = (cs1, Some true) ->
+  bal cs1 a (recv_denom (k_dst_ch p) (k_src_ch p) (k_denom p)) =
+    bal cs a (recv_denom (k_dst_ch p) (k_src_ch p) (k_denom p)) + (if acct_eqb a (AEscrow (k_dst_ch p)) then 0 else k_amt p)
+  \/ has_prefix (k_denom p) (k_src_ch p) = false /\
+     bal cs1 a (add_hop (k_dst_ch p) (k_denom p)) = bal cs a (add_hop (k_dst_ch p) (k_denom p)) + k_amt p.
+Proof.
+  intros Hm Hr. unfold pfm_on_recv. rewrite Hm, Hr. unfold ics_recv, recv_denom.
+  destruct (k_amt p <=? 0); [discriminate|].
+  destruct (has_prefix (k_denom p) (k_src_ch p)) eqn:Hp.
+  - unfold send_coins. destruct (_ <? _); [discriminate|]. intros H; inversion H; subst; clear H. left. simp_keys.
+    destruct (acct_eqb_spec a (AEscrow (k_dst_ch p))); cbn [andb]; lia.
+  - intros H; inversion H; subst; clear H. right. split; auto. simp_keys. lia.
+Qed.
+
+(** and an error acknowledgement on receive leaves the receiving chain's state untouched (core discards the callback) *)
+Theorem receive_error_unchanged dst_of cs p cs1 : pfm_on_recv dst_of cs p = (cs1, Some false) -> cs1 = cs.
+Proof.
+  unfold pfm_on_recv. destruct (k_memo p).
+  - destruct (ics_recv cs p (k_recv p)); intros H; inversion H; auto.
+  - destruct (ics_recv cs p _); [|intros H; inversion H; auto].
+    destruct (do_transfer _ _ _ _ _ _ _ _) as [[? ?]|]; intros H; inversion H; auto.
+Qed.
+
+(** * the guard [denom_ok] is needed: a token that unwinds at this chain and whose remaining trace starts with the
+    channel it came in on is "refunded" by burning it, and the refund escrow stays short *)
+Definition bad_world_cs : CS :=
+  mkCS (fun a d => if acct_eqb a (AEscrow 1) && denom_eqb d (mkD [1%N] 1%N) then 100 else 0)
+       (fun d => if denom_eqb d (mkD [1%N] 1%N) then 100 else 0) (fun d => if denom_eqb d (mkD [1%N] 1%N) then 100 else 0)
+       (fun _ _ => None) (fun _ => 1%N) (fun _ _ => None) (fun _ _ => false) (fun _ _ => None) [1%N; 2%N].
+Definition bad_packet : Packet := mkP 7 1 1 (mkD [7%N; 1%N] 1%N) 10 (AUser 1) None (MFwd (Some (AUser 2)) 2 0 MNone).
+
+Theorem forward_refund_refuted_without_guard :
+  exists cs p cs1 fp cs2,
+    ~ denom_ok p /\ k_dst_ch p <> 2%N /\
+    pfm_on_recv (fun _ => 9%N) cs p = (cs1, None) /\ com cs1 2 1 = Some fp /\
+    pfm_on_ack (set_com cs1 (upd_nn (com cs1) 2 1 None)) fp false = Some cs2 /\
+    bal cs (AEscrow 1) (mkD [1%N] 1%N) = 100 /\ bal cs2 (AEscrow 1) (mkD [1%N] 1%N) = 90 /\
+    sup cs (mkD [1%N] 1%N) = 100 /\ sup cs2 (mkD [1%N] 1%N) = 90.
+Proof.
+  exists bad_world_cs, bad_packet. eexists. eexists. eexists.
+  split; [intros H; apply H; vm_compute; auto|]. split; [discriminate|].
+  split; [vm_compute; reflexivity|]. split; [vm_compute; reflexivity|]. split; [vm_compute; reflexivity|].
+  vm_compute. auto.
+Qed.
+
+(** * whole routes, bounded: a line of four chains, every outcome vector *)
+Definition line_peer : Peer := fun c ch =>
+  match c, ch with
+  | 0%N, 0%N => (1%N, 1%N) | 1%N, 1%N => (0%N, 0%N)
+  | 1%N, 2%N => (2%N, 3%N) | 2%N, 3%N => (1%N, 2%N)
+  | 2%N, 4%N => (3%N, 5%N) | 3%N, 5%N => (2%N, 4%N)
+  | _, _ => (9%N, 9%N)
+  end.
+Definition native : Denom := mkD [] 1.
+Definition line_cs (chs : list N) : CS :=
+  mkCS (fun a d => match a with AUser _ => if denom_eqb d native then 1000 else 0 | _ => 0 end)
+       (fun d => if denom_eqb d native then 5000 else 0) (fun _ => 0) (fun _ _ => None) (fun _ => 1%N) (fun _ _ => None)
+       (fun _ _ => false) (fun _ _ => None) chs.
+Definition line_world : World := fun c =>
+  match c with 0%N => line_cs [0%N] | 1%N => line_cs [1%N; 2%N] | 2%N => line_cs [3%N; 4%N] | _ => line_cs [5%N] end.
+
+Definition ov1 (u : N) : Acct := AOverride 1 (AUser u).
+Definition ov2 (u : N) : Acct := AOverride 3 (ov1 u).
+Definition rov1 (u : N) : Acct := AOverride 4 (AUser u).
+Definition rov2 (u : N) : Acct := AOverride 2 (rov1 u).
+Definition line_accts : list Acct :=
+  [AUser 1; AUser 2; AEscrow 0; AEscrow 1; AEscrow 2; AEscrow 3; AEscrow 4; AEscrow 5; ov1 1; ov2 1; rov1 1; rov2 1].
+Definition line_denoms : list Denom :=
+  [native; mkD [1%N] 1; mkD [3%N; 1%N] 1; mkD [5%N; 3%N; 1%N] 1; mkD [4%N] 1; mkD [2%N; 4%N] 1; mkD [0%N; 2%N; 4%N] 1].
+Definition line_chains : list N := [0%N; 1%N; 2%N; 3%N].
+
+Definition no_inflight (cs : CS) : bool :=
+  forallb (fun ch => forallb (fun s => match infl cs ch s with None => true | Some _ => false end) [1%N; 2%N; 3%N; 4%N; 5%N; 6%N]) (chans cs).
+Definition same_ledger (a b : CS) : bool :=
+  forallb (fun d => (sup a d =? sup b d) && (esc a d =? esc b d) && forallb (fun x => bal a x d =? bal b x d) line_accts) line_denoms.
+Definition overrides_empty (a b : CS) : bool :=
+  forallb (fun d => forallb (fun x => match x with AOverride _ _ => bal a x d =? bal b x d | _ => true end) line_accts) line_denoms.
+
+(** all-or-nothing at quiescence: either every chain's ledger is exactly what it was, or the sender paid [amt] and the
+    receiver got [amt] (of the denomination [dfin] on the last chain) while no override account changed; never an
+    in-flight record left *)
+Definition all_or_nothing (w w' : World) (c0 cn : N) (sender recv : Acct) (d dfin : Denom) (amt : Z) : bool :=
+  forallb (fun c => no_inflight (w' c)) line_chains &&
+  (forallb (fun c => same_ledger (w' c) (w c)) line_chains
+   || ((bal (w' c0) sender d =? bal (w c0) sender d - amt) && (bal (w' cn) recv dfin =? bal (w cn) recv dfin + amt) &&
+       forallb (fun c => overrides_empty (w' c) (w c)) line_chains)).
+
+Definition three : list nat := [0%nat; 1%nat; 2%nat].
+Definition threeN : list N := [0%N; 1%N; 2%N].
+
+(** forward 0 -> 1 -> 2 -> 3 of chain 0's native token (every hop escrows and mints), for all timeouts per hop in
+    {0,1,2}, retries per forward hop in {0,1,2}, valid and invalid final receiver, existing and missing forward channel *)
+Definition forward_cases_ok : bool :=
+  forallb (fun t0 => forallb (fun t1 => forallb (fun t2 => forallb (fun r1 => forallb (fun r2 =>
+  forallb (fun recv => forallb (fun ch2 =>
+    let memo := MFwd None 2 r1 (MFwd recv ch2 r2 MNone) in
+    let w' := route_run line_peer line_world 0 (AUser 1) 0 native 100 None memo [mkH t0; mkH t1; mkH t2] in
+    all_or_nothing line_world w' 0 3 (AUser 1) (AUser 2) native (mkD [5%N; 3%N; 1%N] 1) 100)
+  [4%N; 77%N]) [Some (AUser 2); None]) threeN) threeN) three) three) three.
+
+(** the way back 3 -> 2 -> 1 -> 0 of that voucher (every hop burns and unescrows: unwinding), same outcome space *)
+Definition line_world_back : World :=
+  route_run line_peer line_world 0 (AUser 1) 0 native 300 None (MFwd None 2 0 (MFwd (Some (AUser 1)) 4 0 MNone)) [mkH 0; mkH 0; mkH 0].
+Definition unwind_cases_ok : bool :=
+  forallb (fun t0 => forallb (fun t1 => forallb (fun t2 => forallb (fun r1 => forallb (fun r2 =>
+  forallb (fun recv => forallb (fun ch2 =>
+    let memo := MFwd None 3 r1 (MFwd recv ch2 r2 MNone) in
+    let w' := route_run line_peer line_world_back 3 (AUser 1) 5 (mkD [5%N; 3%N; 1%N] 1) 100 None memo [mkH t0; mkH t1; mkH t2] in
+    all_or_nothing line_world_back w' 3 0 (AUser 1) (AUser 2) (mkD [5%N; 3%N; 1%N] 1) native 100)
+  [1%N; 77%N]) [Some (AUser 2); None]) threeN) threeN) three) three) three.
+
+(** a token native to chain 2, first moved to chain 0, then forwarded 0 -> 1 -> 2 -> 3: unwinds twice, then winds *)
+Definition line_world_mid : World :=
+  route_run line_peer line_world 2 (AUser 1) 3 native 300 None (MFwd (Some (AUser 1)) 1 0 MNone) [mkH 0; mkH 0].
+Definition mixed_cases_ok : bool :=
+  forallb (fun t0 => forallb (fun t1 => forallb (fun t2 => forallb (fun r1 => forallb (fun r2 =>
+  forallb (fun recv =>
+    let memo := MFwd None 2 r1 (MFwd recv 4 r2 MNone) in
+    let w' := route_run line_peer line_world_mid 0 (AUser 1) 0 (mkD [0%N; 2%N] 1) 100 None memo [mkH t0; mkH t1; mkH t2] in
+    all_or_nothing line_world_mid w' 0 3 (AUser 1) (AUser 2) (mkD [0%N; 2%N] 1) (mkD [5%N] 1) 100)
+  [Some (AUser 2); None]) threeN) threeN) three) three) three.
+
+Theorem routes_bounded_all_or_nothing : forward_cases_ok = true /\ unwind_cases_ok = true /\ mixed_cases_ok = true.
+Proof. vm_compute. auto. Qed.
+
+(** and the positive outcomes really occur (the disjunction above is not satisfied by refunds alone) *)
+Example route_success_delivers :
+  let w' := route_run line_peer line_world 0 (AUser 1) 0 native 100 None (MFwd None 2 0 (MFwd (Some (AUser 2)) 4 0 MNone)) [mkH 0; mkH 0; mkH 0] in
+  bal (w' 3%N) (AUser 2) (mkD [5%N; 3%N; 1%N] 1) = 100 /\ bal (w' 0%N) (AUser 1) native = 900 /\
+  bal (w' 1%N) (AEscrow 2) (mkD [1%N] 1) = 100 /\ sup (w' 2%N) (mkD [3%N; 1%N] 1) = 100.
+Proof. vm_compute. auto. Qed.
